@@ -131,7 +131,10 @@ def run(chk, ctx) -> None:
     from .helpers import foreign
     foreign(chk, showing_components, Refile(chk, {'C12.show_flags': 'C15.record', 'C12.show_all': 'C15.record'},
                                             only=lambda r, c: c.endswith(':cards') or r == 'C12.show_all'), ctx)
-    chk.floor('C15.record', 17)
+    # replaying the log hands the logged cards back to the operations: a logged unknown card (falsy) is a value, not "no card given"
+    from .c19 import card_forms
+    card_forms(chk, ctx, 'C15.record')
+    chk.floor('C15.record', 23)
     from .cover import records_inert
     records_inert(chk, ctx, 'C15.record')
 
